@@ -111,7 +111,7 @@ def load_known():
 
 def _match_known(prop, o, known):
     for k in known.get("findings", []):
-        if (k.get("property") == prop and k.get("rule") == o["rule"] and
+        if (k.get("property") == prop and k.get("rule") == o["rule"].split("[")[0] and
                 k.get("function") == o.get("function") and k.get("subject") == o.get("subject")):
             return k
     return None
@@ -220,11 +220,14 @@ def run(prop, tier, seed, replay=None):
             o["detail"] = "listed for this configuration: " + CONFIG_EXCEPTIONS[(o["config"], o["rule"].split("[")[0], o.get("function"))]
     viol = [o for o in ctx.obl if o["verdict"] == "violation"]
     new = []
+    announced = set()
     for o in viol:
         k = _match_known(prop, o, known)
         if k is not None:
             o["verdict"] = "known"
-            print("KNOWN-FINDING: property=%s %s" % (prop, k.get("what") or o["detail"]))
+            if k.get("id", k.get("what")) not in announced:
+                announced.add(k.get("id", k.get("what")))
+                print("KNOWN-FINDING: property=%s %s" % (prop, k.get("what") or o["detail"]))
         else:
             new.append(o)
     rc = 0
